@@ -71,10 +71,12 @@ class Configuration:
     DISCOUNT_RATE: float = 0.07
     SERV_LIFE: float = 20
 
+    ### Turbine parameters (read when DO_TURBINE_WORK is set) ###
+    T_TURBINE_BOX: float = 450
+    P_TURBINE_BOX: float = 90
+
     ### OLD CONFIG -- TODO: Review ###
 
-    # T_TURBINE_BOX: float = 450
-    # P_TURBINE_BOX: float = 90
     # MIN_EFF: float = 0.1
     # ELECTRICITY_PRICE: float = 100
     # LOAD: float = 1
